@@ -121,6 +121,39 @@ theorem C15_apply_binding_verifies {T : Tables} (hT : TablesOk T) {C : Codec (Si
   rw [if_neg (fun h => h haE), hsign]
   exact h1
 
+/-- With the tables of the current source, for the five RSA-SHA* algorithms. -/
+theorem C15_verifies_current {C : Codec (Sig κ)} (hC : CodecLaws C) (key own : κ) {typ : Str}
+    (htyp : typ = kSAMLRequest ∨ typ = kSAMLResponse) (v rs : Str) {alg : Str}
+    (ha : alg ∈ [uriRsaSha1, uriRsaSha224, uriRsaSha256, uriRsaSha384, uriRsaSha512]) :
+    ∃ params sg, redirectMessage genTables C key typ v rs true (some alg) = .ok params (some sg) ∧
+      verifyRedirect genTables C own params (some (pub key)) none = .verified := by
+  have ha' : alg ∈ genTables.allowedPack := by rw [C15_tables_regenerated.1]; exact ha
+  obtain ⟨p, sg, h1, h2, _, _⟩ := C15_verifies C15_tables_ok hC key own htyp v rs ha' none
+  exact ⟨p, sg, h1, h2⟩
+
+omit [DecidableEq κ] in
+/-- The second refusal of the signer ("Could not init signer") cannot happen when every allowed
+    algorithm has a signer: the model branch `noSigner` is dead for the current tables. -/
+theorem C15_no_signer_unreachable {T : Tables} (hT : TablesOk T) (C : Codec (Sig κ)) (key : κ)
+    (typ v rs : Str) (sign : Bool) (sigalg : Option Str) :
+    redirectMessage T C key typ v rs sign sigalg ≠ .refused .noSigner := by
+  unfold redirectMessage
+  split
+  · simp
+  · cases sign with
+    | false => simp
+    | true =>
+      cases sigalg with
+      | none => simp
+      | some a =>
+        by_cases ha : a ∈ T.allowedPack
+        · obtain ⟨hne, hsome⟩ := hT.supported a ha
+          obtain ⟨dig, hdig⟩ := Option.isSome_iff_exists.mp hsome
+          simp only [Bool.not_true, Bool.false_eq_true, if_false, ha, not_true_eq_false, hne, ne_eq,
+            not_false_eq_true, if_true, hdig]
+          split <;> simp
+        · simp [ha]
+
 /-! ## Verification binds message, relay state, algorithm, signature and key -/
 
 /-- If a received dictionary verifies and its Signature parameter denotes `k`'s signature
@@ -567,17 +600,19 @@ theorem C15_model_meets_spec_server (C : Codec (Sig κ)) (own : κ) (must redire
 
 section Examples
 
-/-- a lawful toy codec over two-letter signatures: base64 is modelled by tagging -/
-private def toyB64e : Sig Nat → Str
+/-- a lawful toy codec: base64 is modelled by tagging; like Python's lenient `b64decode`, the
+    decoder accepts more than one text for the same octets (tag 1 or 2) -/
+def toyB64e : Sig Nat → Str
   | .signed k d m => 1 :: k :: d.length :: (d ++ m)
   | .junk n => [0, n]
-private def toyB64d : Str → Option (Sig Nat)
+def toyB64d : Str → Option (Sig Nat)
   | 1 :: k :: n :: rest => some (.signed k (rest.take n) (rest.drop n))
+  | 2 :: k :: n :: rest => some (.signed k (rest.take n) (rest.drop n))
   | [0, n] => some (.junk n)
   | _ => none
-private def toy : Codec (Sig Nat) := ⟨quotePlus, toyB64e, toyB64d⟩
+def toy : Codec (Sig Nat) := ⟨quotePlus, toyB64e, toyB64d⟩
 
-private theorem toy_laws : CodecLaws toy :=
+theorem toy_laws : CodecLaws toy :=
   C15_quotePlus_laws toyB64e toyB64d (by
     intro s
     cases s with
@@ -585,8 +620,8 @@ private theorem toy_laws : CodecLaws toy :=
     | junk n => rfl)
 
 -- relay state "a b&c=d" (bytes), message value "eJw+/w==", key 7, rsa-sha256
-private def rs0 : Str := [97, 32, 98, 38, 99, 61, 100]
-private def v0 : Str := [101, 74, 119, 43, 47, 119, 61, 61]
+def rs0 : Str := [97, 32, 98, 38, 99, 61, 100]
+def v0 : Str := [101, 74, 119, 43, 47, 119, 61, 61]
 
 /-- the signed octet string, byte for byte:
     `SAMLRequest=eJw%2B%2Fw%3D%3D&RelayState=a+b%26c%3Dd&SigAlg=http%3A%2F%2Fwww.w3.org%2F2001%2F04%2Fxmldsig-more%23rsa-sha256` -/
@@ -597,12 +632,12 @@ example : (match redirectMessage genTables toy 7 kSAMLRequest v0 rs0 true (some 
     kRelayState ++ [61] ++ [97, 43, 98, 37, 50, 54, 99, 37, 51, 68, 100] ++ [38] ++
     kSigAlg ++ [61] ++ quotePlus uriRsaSha256 := by decide +kernel
 
-private def params0 : Dict :=
+def params0 : Dict :=
   match redirectMessage genTables toy 7 kSAMLRequest v0 rs0 true (some uriRsaSha256) with
   | .ok p _ => p
   | _ => []
 
-private def setKey (d : Dict) (k v : Str) : Dict := d.map fun p => if p.1 = k then (k, v) else p
+def setKey (d : Dict) (k v : Str) : Dict := d.map fun p => if p.1 = k then (k, v) else p
 
 -- C15_verifies: right certificate
 example : verifyRedirect genTables toy 1 params0 (some (pub 7)) none = .verified := by decide +kernel
@@ -635,10 +670,46 @@ example : redirectMessage genTables toy 7 kSAMLRequest v0 rs0 true
     (some (uriRsaSha1.take 38 ++ [109, 100, 53])) = .refused .notAllowedPack := by decide +kernel
 example : redirectMessage genTables toy 7 kSAMLResponse v0 [] true none = .refused .notAllowedPack := by
   decide +kernel
+-- a junk signature
+example : verifyRedirect genTables toy 1 (setKey params0 kSignature [0, 5]) (some (pub 7)) none = .notVerified := by
+  decide +kernel
 -- hypotheses of C15_binds / C15_receiver_binds are satisfiable (see the examples above), and the
 -- laws hold for `toy`
 example : CodecLaws toy := toy_laws
 
 end Examples
+
+/-! ## Reading of "any change to the Signature parameter"
+
+The check reads it as: any change of the OCTETS the parameter denotes (`C15_signature_bound`,
+`C15_bad_signature_fails`, `C15_any_change_fails`).  The literal reading — any change of the
+parameter's TEXT — is kept here as a statement; it is false for every decoder that accepts two
+texts for the same octets, which Python's lenient `base64.b64decode` (used by
+`verify_redirect_signature`) does: ignored characters, optional trailing data after padding,
+unused bits of the last sextet.  See the builder's report for the direct call. -/
+
+/-- literal reading: a verified parameter set stops verifying when the Signature text changes -/
+def C15_signature_text_literal_full : Prop :=
+  ∀ (C : Codec (Sig Nat)), CodecLaws C → ∀ (own : Nat) (msg : Dict) (cert sigkey : Option (Pub Nat)) (st st' : Str),
+    msg.get kSignature = some st → st' ≠ st →
+    verifyRedirect genTables C own msg cert sigkey = .verified →
+    verifyRedirect genTables C own (setKey msg kSignature st') cert sigkey ≠ .verified
+
+/-- what holds instead (for every codec, lawful or not): the text may change only within the
+    texts that denote the same octets -/
+theorem C15_signature_text_literal_partial (C : Codec (Sig κ)) (own : κ) (msg msg' : Dict)
+    (cert sigkey : Option (Pub κ)) (hview : view msg' = view msg)
+    (hrs : msg'.get kRelayState = msg.get kRelayState) (halg : msg'.get kSigAlg = msg.get kSigAlg)
+    (hdiff : (msg'.get kSignature).bind C.b64d ≠ (msg.get kSignature).bind C.b64d)
+    (h : verifyRedirect genTables C own msg cert sigkey = .verified) :
+    verifyRedirect genTables C own msg' cert sigkey ≠ .verified :=
+  fun h' => hdiff (C15_signature_bound C15_tables_ok C own msg msg' cert sigkey hview hrs halg h h')
+
+theorem C15_signature_text_literal_counterexample : ¬ C15_signature_text_literal_full := by
+  intro h
+  have hst : params0.get kSignature = some ((params0.get kSignature).getD []) := by decide +kernel
+  refine h toy toy_laws 1 params0 (some (pub 7)) none _
+    (2 :: ((params0.get kSignature).getD []).tail) hst (by decide +kernel) (by decide +kernel) ?_
+  decide +kernel
 
 end C15
